@@ -932,15 +932,12 @@ theorem basic_reads (b : Bytes) :
              | .ok bd2 => match getS .be 4 b 16 with
                | .error e => .error e
                | .ok si => .ok [ns, sk, bd1, bd2, si]) := by
-  simp only [basicKinds, readFields, FK.size]
-  show (match getS .be 4 b 0 with | .error e => _ | .ok v => _) = _
+  have e : ∀ (d : Bytes) (o : Nat), readField .s32 d o = getS .be 4 d o := fun _ _ => rfl
+  simp only [basicKinds, readFields, FK.size, e, Nat.zero_add, Nat.reduceAdd]
   cases getS .be 4 b 0 <;> simp only
   cases readField .u32 b 4 <;> simp only
-  show (match getS .be 4 b 8 with | .error e => _ | .ok v => _) = _
   cases getS .be 4 b 8 <;> simp only
-  show (match getS .be 4 b 12 with | .error e => _ | .ok v => _) = _
   cases getS .be 4 b 12 <;> simp only
-  show (match getS .be 4 b 16 with | .error e => _ | .ok v => _) = _
   cases getS .be 4 b 16 <;> rfl
 
 theorem imageTail_reads (h : Bytes) :
